@@ -111,6 +111,72 @@ def r1_sequencing_sound_combination(ctx):
             ok, why = False, "the index of the last sibling with dependencies is not computed"
     ctx.ob("C02.R1", f"{GEN}::_chain_py_ast::hoists earlier nodes before later siblings' statements", GEN, ch.lineno, ok, why,
            witness="[(+ (t 1) (if (t 2) (t 3) 0))] evaluated 2, 3, 1")
+    # ... and the combinator itself, evaluated (own interpreter, modelled AST nodes) on every sibling
+    # list of length 2 and 3 over {constant, call} values x {no statements, an expression statement,
+    # a function definition, both}: the trace of what runs -- each sibling's statements, then its
+    # value -- must be in source order.  A `def` statement counts like any other: executing it
+    # evaluates its decorators, default values and annotations.
+    from ..minipy import ClassModel, Interp, Obj, PyRaise, Unsupported
+    import itertools as _it
+
+    def _mk(name):
+        return ClassModel(ast.parse(f"class {name}:\n    pass\n").body[0])
+    K = {n: _mk(n) for n in ("Constant", "Call", "Name", "Assign", "Expr", "FunctionDef", "AsyncFunctionDef", "GeneratedPyAST")}
+    counter = [0]
+
+    def _genname(prefix):
+        counter[0] += 1
+        return f"{prefix}_{counter[0]}"
+    interp = Interp(globals_={
+        "genname": _genname, "cast": lambda _t, x: x, "all": lambda it: all(it), "any": lambda it: any(it),
+        "ast.Assign": lambda targets=None, value=None, **_k: Obj(K["Assign"], targets=targets, value=value),
+        "ast.Name": lambda id=None, ctx=None, **_k: Obj(K["Name"], id=id),
+        "ast.Store": lambda: "store", "ast.Load": lambda: "load",
+    }, fuel=3_000_000)
+    interp.mutable_lists = True
+    for c in ast.walk(tree):
+        if isinstance(c, ast.Assign) and isinstance(c.targets[0], ast.Name) and isinstance(c.value, ast.Constant) and isinstance(c.value.value, str) and c.targets[0].id.isupper():
+            interp.globals.setdefault(c.targets[0].id, c.value.value)
+    DEPS = {"none": (), "expr": ("Expr",), "def": ("FunctionDef",), "expr+def": ("Expr", "FunctionDef")}
+    bad_order = None
+    n_cases = 0
+    try:
+        for n_sib in (2, 3):
+            for combo in _it.product(_it.product(("Constant", "Call"), sorted(DEPS)), repeat=n_sib):
+                n_cases += 1
+                sibs, own = [], {}
+                for i, (nk, dk) in enumerate(combo):
+                    node = Obj(K[nk], sib=i)
+                    deps = [Obj(K[k], sib=i) for k in DEPS[dk]]
+                    for d in deps:
+                        own[id(d)] = i
+                    sibs.append(Obj(K["GeneratedPyAST"], node=node, dependencies=deps))
+                out = interp.call_function(ch, sibs, {})
+                deps_out, nodes_out = list(interp.iterate(out[0])), list(interp.iterate(out[1]))
+                trace = []
+                for d in deps_out:
+                    if id(d) in own:
+                        trace.append(("stmt", own[id(d)]))
+                    elif isinstance(d, Obj) and d.cls.name == "Assign" and isinstance(d.f.get("value"), Obj) and "sib" in d.f["value"].f:
+                        trace.append(("value", d.f["value"].f["sib"]))
+                for nd in nodes_out:
+                    if isinstance(nd, Obj) and "sib" in nd.f:
+                        trace.append(("value", nd.f["sib"]))
+                want = []
+                for i, (nk, dk) in enumerate(combo):
+                    want += [("stmt", i)] * len(DEPS[dk]) + [("value", i)]
+                # a constant has no effects: where it is "evaluated" does not matter
+                const = {i for i, (nk, _dk) in enumerate(combo) if nk == "Constant"}
+                norm = lambda tr: [e for e in tr if not (e[0] == "value" and e[1] in const)]
+                if norm(trace) != norm(want) and bad_order is None:
+                    descr = ", ".join(f"{'a constant' if nk == 'Constant' else 'a call'} with {dk.replace('none', 'no')} statement(s)" for nk, dk in combo)
+                    bad_order = f"for the siblings ({descr}) the generated code runs {norm(trace)}, source order is {norm(want)}"
+    except Unsupported as e:
+        raise AnalysisError(f"_chain_py_ast outside the interpretable fragment: {e}")
+    except PyRaise as e:
+        bad_order = f"_chain_py_ast raises {e.name} on modelled siblings"
+    ctx.ob("C02.R1", f"{GEN}::_chain_py_ast::statements and values of the siblings run in source order (evaluated on {n_cases} sibling lists)", GEN, ch.lineno, bad_order is None, bad_order or "",
+           witness="(f (mark 1) ^{:k (mark 2)} (fn [] nil) (mark 3)) must record [1 2 3]: the fn literal's `def` evaluates its metadata decorator when it executes")
     red = ctx.fn(GEN, "GeneratedPyAST.reduce")
     body = [P.un(s) for l in ast.walk(red) if isinstance(l, ast.For) for s in l.body]
     ok = body == ["deps.extend(n.dependencies)", "deps.append(n.node)"]
